@@ -142,3 +142,15 @@ def lemma(name, props=(), vars=None, assumes=(), shows=(), uses=(), note=''):
     """lemma(name, vars={'a': 'int', 'x': 'real', 'v': 'val'}, assumes=[...], shows=[...])"""
     LEMMAS[name] = Lemma(name, props, vars or {}, assumes, shows, uses, note)
     return LEMMAS[name]
+
+
+# ---- static obligations: nullary facts decided by inspecting the real source (AST / class table) on every run -----------
+STATICS = {}
+
+
+def static(name, props=(), note=''):
+    """decorator: fn() -> (ok: bool, detail: str).  Counted as one obligation, back end 'ast-scan' (exhaustive: the fact has no inputs)."""
+    def deco(fn):
+        STATICS[name] = (list(props) if not isinstance(props, str) else [props], fn, note)
+        return fn
+    return deco
